@@ -20,7 +20,8 @@ RULE = ("templates of 1-15 operations on 1-5 modes whose positional arguments ar
         "parameters repeated across operations and positions, constants elsewhere; generic real values; the instance itself and 2 (quick) / 6 "
         "(thorough) random linear extensions of its per-mode order, then a second instantiation of the same template object with other values; values of "
         "magnitude 1e-10..1e7; every fourth case also a tdm template with bare parameters matched against the tdm program that passes p-arrays by name (the returned values must be the declared arrays); one structural edit per negative case; non-trivial = >=3 operations, a "
-        "repeated parameter and (a reordering that differs from the identity or a negative case); distinct by SHA-1 of template+values+order")
+        "repeated parameter and (a reordering that differs from the identity or a negative case); distinct by SHA-1 of template+values+order"
+        '; a third instantiation with NumPy-typed and complex values')
 BUDGET = {"quick": 1200, "thorough": 16000}
 MIN_NONTRIVIAL = {"quick": 600, "thorough": 6000}
 REQUIRED_FUNCTIONS = ["utils.py:match_template", "utils.py:to_DiGraph", "program.py:BlackbirdProgram.__call__"]
